@@ -350,13 +350,3 @@ fn c14_global_unknown_union() {
     fgt(a1); fgt(b2);
 }
 
-fn model_sort<T: Ord>(_v: &mut [T]) {}
-/// Every xpub used here differs from the others at most in `depth`.
-fn model_xpub_cmp(a: &Xpub, b: &Xpub) -> core::cmp::Ordering { a.depth.cmp(&b.depth) }
-#[kani::proof]
-#[kani::unwind(5)]
-#[kani::stub(zffi::secp256k1_ec_pubkey_cmp, model_ec_pubkey_cmp)]
-#[kani::stub(sfmt::format, model_format)]
-#[kani::stub(<[Tweak]>::sort, model_sort)]
-#[kani::stub(<XpubT as OrdT>::cmp, model_xpub_cmp)]
-fn zz_probe_case_conflict_2_1() { xpub_case::<2, 1>(Mode::Conflict); }
